@@ -39,18 +39,19 @@ import (
 
 type inlineSite struct {
 	call   *ast.CallExpr
-	callee *types.Func
+	callee types.Object
 }
 
 type normalizer struct {
 	fset    *token.FileSet
 	pkgs    []*packages.Package
 	pinned  map[string]bool
-	decl    map[*types.Func]*ast.FuncDecl
-	declPkg map[*types.Func]*packages.Package
+	decl    map[types.Object]*ast.FuncDecl
+	declPkg map[types.Object]*packages.Package
+	closure map[types.Object]*ast.FuncLit // single-assignment local closures (`f := func(..){..}`, only ever called)
 	src     map[string][]byte
 	n       int
-	busy    map[*types.Func]bool
+	busy    map[types.Object]bool
 	extra   map[string]bool // pinned functions that are inlined as well while a flat view is generated
 	Log     []string
 }
@@ -133,19 +134,43 @@ func applyEdits(src []byte, base int, end int, edits []textEdit) string {
 }
 
 // isNewHelper: a repository function with a body that the pinned tree does not have.
-func (nz *normalizer) isNewHelper(f *types.Func) bool {
-	if f == nil || f.Pkg() == nil || !strings.HasPrefix(f.Pkg().Path(), Mod) {
+func (nz *normalizer) isNewHelper(f types.Object) bool {
+	if f == nil || isNilObj(f) {
 		return false
 	}
-	if nz.pinned[f.FullName()] && !nz.extra[f.FullName()] {
+	if _, isVar := f.(*types.Var); isVar {
+		return nz.closure[f] != nil // a local closure is never part of the pinned interface
+	}
+	fn, ok := f.(*types.Func)
+	if !ok || fn.Pkg() == nil || !strings.HasPrefix(fn.Pkg().Path(), Mod) {
+		return false
+	}
+	if nz.pinned[fn.FullName()] && !nz.extra[fn.FullName()] {
 		return false
 	}
 	d := nz.decl[f]
 	return d != nil && d.Body != nil
 }
 
+func isNilObj(o types.Object) bool {
+	switch x := o.(type) {
+	case *types.Func:
+		return x == nil
+	case *types.Var:
+		return x == nil
+	}
+	return false
+}
+
+func objName(o types.Object) string {
+	if fn, ok := o.(*types.Func); ok {
+		return fn.FullName()
+	}
+	return "closure " + o.Name()
+}
+
 // inlinable checks the callee-side preconditions.
-func (nz *normalizer) inlinable(f *types.Func) (ok bool, why string) {
+func (nz *normalizer) inlinable(f types.Object) (ok bool, why string) {
 	d := nz.decl[f]
 	sig := f.Type().(*types.Signature)
 	if sig.Variadic() {
@@ -313,7 +338,7 @@ func (nz *normalizer) findSite(info *types.Info, s ast.Stmt) (site *inlineSite, 
 			return false
 		case *ast.CallExpr:
 			// a new helper: its receiver and arguments are bound, in order, by the expansion itself
-			if cal, _ := typeutil.Callee(info, x).(*types.Func); nz.isNewHelper(cal) {
+			if cal := typeutil.Callee(info, x); cal != nil && nz.isNewHelper(cal) {
 				first = x
 				firstPath = append([]ast.Node{}, path...)
 				path = path[:len(path)-1]
@@ -354,8 +379,8 @@ func (nz *normalizer) findSite(info *types.Info, s ast.Stmt) (site *inlineSite, 
 	if first == nil {
 		return nil, "", false
 	}
-	callee, _ := typeutil.Callee(info, first).(*types.Func)
-	if !nz.isNewHelper(callee) {
+	callee := typeutil.Callee(info, first)
+	if callee == nil || !nz.isNewHelper(callee) {
 		return nil, "", false
 	}
 	// short-circuit guard along the path
@@ -382,10 +407,11 @@ func (nz *normalizer) findSite(info *types.Info, s ast.Stmt) (site *inlineSite, 
 }
 
 // capturedNames: package-level names the callee's body uses that mean something else at the call site.
-func (nz *normalizer) captured(callee *types.Func, callerPk *packages.Package, at token.Pos) bool {
+func (nz *normalizer) captured(callee types.Object, callerPk *packages.Package, at token.Pos) bool {
 	d := nz.decl[callee]
 	cpk := nz.declPkg[callee]
 	bad := false
+	lit := nz.closure[callee]
 	ast.Inspect(d.Body, func(n ast.Node) bool {
 		id, ok := n.(*ast.Ident)
 		if !ok || bad {
@@ -393,6 +419,19 @@ func (nz *normalizer) captured(callee *types.Func, callerPk *packages.Package, a
 		}
 		obj := cpk.TypesInfo.Uses[id]
 		if obj == nil {
+			return true
+		}
+		if lit != nil && obj.Pkg() != nil && obj.Parent() != nil && obj.Parent() != obj.Pkg().Scope() {
+			// a variable the closure captures from the enclosing function: at the call site the
+			// name must still denote the same variable
+			if obj.Pos() < lit.Pos() || obj.Pos() >= lit.End() {
+				if sc := callerPk.Types.Scope().Innermost(at); sc != nil {
+					if _, o := sc.LookupParent(id.Name, at); o != obj {
+						bad = true
+						return false
+					}
+				}
+			}
 			return true
 		}
 		pkgLevel := false
@@ -427,7 +466,7 @@ func (nz *normalizer) captured(callee *types.Func, callerPk *packages.Package, a
 
 // bodyText renders the callee's body for inlining: nested new helpers inlined, returns rewritten.
 // label == "" keeps the returns (used for go/defer literals).
-func (nz *normalizer) bodyText(callee *types.Func, label string, results []string) (string, bool) {
+func (nz *normalizer) bodyText(callee types.Object, label string, results []string) (string, bool) {
 	d := nz.decl[callee]
 	pk := nz.declPkg[callee]
 	if nz.busy[callee] {
@@ -510,11 +549,11 @@ func (nz *normalizer) expansion(pk *packages.Package, file *ast.File, site *inli
 	info := pk.TypesInfo
 	callee := site.callee
 	if okI, why := nz.inlinable(callee); !okI {
-		nz.Log = append(nz.Log, fmt.Sprintf("not inlined: %s (%s)", callee.FullName(), why))
+		nz.Log = append(nz.Log, fmt.Sprintf("not inlined: %s (%s)", objName(callee), why))
 		return "", nil, false
 	}
 	if nz.captured(callee, pk, site.call.Pos()) {
-		nz.Log = append(nz.Log, fmt.Sprintf("not inlined: %s (a name of its body is shadowed at %s)", callee.FullName(), nz.fset.Position(site.call.Pos())))
+		nz.Log = append(nz.Log, fmt.Sprintf("not inlined: %s (a name of its body is shadowed at %s)", objName(callee), nz.fset.Position(site.call.Pos())))
 		return "", nil, false
 	}
 	d := nz.decl[callee]
@@ -598,12 +637,12 @@ func (nz *normalizer) expansion(pk *packages.Package, file *ast.File, site *inli
 	}
 	inner, okB := nz.bodyText(callee, id, temps)
 	if !okB {
-		nz.Log = append(nz.Log, fmt.Sprintf("not inlined: %s (recursive)", callee.FullName()))
+		nz.Log = append(nz.Log, fmt.Sprintf("not inlined: %s (recursive)", objName(callee)))
 		return "", nil, false
 	}
 	flat, okF := flatten(inner)
 	if !okF || *failed {
-		nz.Log = append(nz.Log, fmt.Sprintf("not inlined: %s (a type or the body cannot be spelled at the call site)", callee.FullName()))
+		nz.Log = append(nz.Log, fmt.Sprintf("not inlined: %s (a type or the body cannot be spelled at the call site)", objName(callee)))
 		return "", nil, false
 	}
 	loop := fmt.Sprintf("%s: for { %s%s; break %s }; ", id, body.String(), flat, id)
@@ -612,7 +651,7 @@ func (nz *normalizer) expansion(pk *packages.Package, file *ast.File, site *inli
 	} else {
 		sb.WriteString(binds.String() + loop)
 	}
-	nz.Log = append(nz.Log, fmt.Sprintf("inlined %s at %s", callee.FullName(), nz.fset.Position(site.call.Pos())))
+	nz.Log = append(nz.Log, fmt.Sprintf("inlined %s at %s", objName(callee), nz.fset.Position(site.call.Pos())))
 	return sb.String(), temps, true
 }
 
@@ -635,8 +674,8 @@ func (nz *normalizer) stmtEdits(pk *packages.Package, file *ast.File, root ast.N
 			} else {
 				call = x.(*ast.DeferStmt).Call
 			}
-			callee, _ := typeutil.Callee(info, call).(*types.Func)
-			if !nz.isNewHelper(callee) {
+			callee := typeutil.Callee(info, call)
+			if _, isFn := callee.(*types.Func); !isFn || !nz.isNewHelper(callee) {
 				return
 			}
 			// as a function literal the body keeps its own defers, labels and returns
@@ -711,7 +750,7 @@ func (nz *normalizer) stmtEdits(pk *packages.Package, file *ast.File, root ast.N
 				seq++
 				edits = append(edits, textEdit{nz.off(call.Lparen) + 1, nz.off(call.Lparen) + 1, extraArg + sep, seq})
 			}
-			nz.Log = append(nz.Log, fmt.Sprintf("inlined %s as a function literal at %s", callee.FullName(), nz.fset.Position(call.Pos())))
+			nz.Log = append(nz.Log, fmt.Sprintf("inlined %s as a function literal at %s", objName(callee), nz.fset.Position(call.Pos())))
 			return
 		}
 		site, guard, ok := nz.findSite(info, target)
@@ -806,8 +845,8 @@ func (nz *normalizer) stmtEdits(pk *packages.Package, file *ast.File, root ast.N
 
 // BuildOverlay returns the normalised sources of the files that call new helpers.
 func BuildOverlay(pkgs []*packages.Package, pinned map[string]bool) (map[string][]byte, []string) {
-	nz := &normalizer{pkgs: pkgs, pinned: pinned, decl: map[*types.Func]*ast.FuncDecl{}, declPkg: map[*types.Func]*packages.Package{},
-		src: map[string][]byte{}, busy: map[*types.Func]bool{}}
+	nz := &normalizer{pkgs: pkgs, pinned: pinned, decl: map[types.Object]*ast.FuncDecl{}, declPkg: map[types.Object]*packages.Package{},
+		src: map[string][]byte{}, busy: map[types.Object]bool{}, closure: map[types.Object]*ast.FuncLit{}}
 	anyNew := false
 	for _, pk := range pkgs {
 		if !strings.HasPrefix(pk.PkgPath, Mod) {
@@ -820,6 +859,7 @@ func BuildOverlay(pkgs []*packages.Package, pinned map[string]bool) (map[string]
 				if !ok {
 					continue
 				}
+				nz.findClosures(pk, fd)
 				if obj, ok := pk.TypesInfo.Defs[fd.Name].(*types.Func); ok {
 					nz.decl[obj] = fd
 					nz.declPkg[obj] = pk
@@ -852,6 +892,13 @@ func BuildOverlay(pkgs []*packages.Package, pinned map[string]bool) (map[string]
 				if self != nil {
 					delete(nz.busy, self)
 				}
+			}
+			// the variable of an inlined closure stays declared: keep it "used"
+			for obj, lit := range nz.closure {
+				if nz.declPkg[obj] != pk || !(f.Pos() <= lit.Pos() && lit.Pos() < f.End()) {
+					continue
+				}
+				edits = append(edits, textEdit{nz.off(lit.End()), nz.off(lit.End()), "; _ = " + obj.Name(), 1 << 19})
 			}
 			// flat views: a copy `<name>__flat` of a designated function with its private helpers inlined as well,
 			// placed on the line of the original's closing brace (all other positions stay as they are)
@@ -905,4 +952,94 @@ var FlatViews = map[string][]string{
 		"(*" + PkgG + ".Genome).duplicateGenes",
 		"(*" + PkgG + ".Genome).duplicateControlGenes",
 	},
+}
+
+// findClosures records the local closures of fd that can be inlined at their call sites: a variable
+// defined once as a function literal (`f := func(..) {..}` / `var f = func(..) {..}`), never assigned
+// again, never used as a value (only called), and not calling itself.
+func (nz *normalizer) findClosures(pk *packages.Package, fd *ast.FuncDecl) {
+	if fd.Body == nil {
+		return
+	}
+	info := pk.TypesInfo
+	cands := map[types.Object]*ast.FuncLit{}
+	idents := map[types.Object]*ast.Ident{}
+	ast.Inspect(fd.Body, func(n ast.Node) bool {
+		switch x := n.(type) {
+		case *ast.AssignStmt:
+			if x.Tok == token.DEFINE && len(x.Lhs) == 1 && len(x.Rhs) == 1 {
+				if id, ok := x.Lhs[0].(*ast.Ident); ok {
+					if lit, ok := x.Rhs[0].(*ast.FuncLit); ok {
+						if obj := info.Defs[id]; obj != nil {
+							cands[obj] = lit
+							idents[obj] = id
+						}
+					}
+				}
+			}
+		case *ast.ValueSpec:
+			if len(x.Names) == 1 && len(x.Values) == 1 {
+				if lit, ok := x.Values[0].(*ast.FuncLit); ok {
+					if obj := info.Defs[x.Names[0]]; obj != nil {
+						cands[obj] = lit
+						idents[obj] = x.Names[0]
+					}
+				}
+			}
+		}
+		return true
+	})
+	if len(cands) == 0 {
+		return
+	}
+	// every use must be the callee position of a plain call statement-level or expression call, outside the literal itself
+	callFun := map[*ast.Ident]bool{}
+	ast.Inspect(fd.Body, func(n ast.Node) bool {
+		switch x := n.(type) {
+		case *ast.CallExpr:
+			if id, ok := x.Fun.(*ast.Ident); ok {
+				callFun[id] = true
+			}
+		case *ast.GoStmt:
+			if id, ok := x.Call.Fun.(*ast.Ident); ok {
+				delete(callFun, id)
+				callFun[id] = false
+			}
+		case *ast.DeferStmt:
+			if id, ok := x.Call.Fun.(*ast.Ident); ok {
+				callFun[id] = false
+			}
+		}
+		return true
+	})
+	ok := map[types.Object]bool{}
+	for o := range cands {
+		ok[o] = true
+	}
+	ast.Inspect(fd.Body, func(n ast.Node) bool {
+		id, isId := n.(*ast.Ident)
+		if !isId {
+			return true
+		}
+		obj := info.Uses[id]
+		lit, isCand := cands[obj]
+		if !isCand {
+			return true
+		}
+		if !callFun[id] {
+			ok[obj] = false // used as a value, reassigned, deferred or started as a goroutine
+		}
+		if lit.Pos() <= id.Pos() && id.Pos() < lit.End() {
+			ok[obj] = false // recursive
+		}
+		return true
+	})
+	for o, lit := range cands {
+		if !ok[o] {
+			continue
+		}
+		nz.closure[o] = lit
+		nz.decl[o] = &ast.FuncDecl{Name: idents[o], Type: lit.Type, Body: lit.Body}
+		nz.declPkg[o] = pk
+	}
 }
